@@ -175,8 +175,34 @@ def term_cases(res, rng, tier):
             res.count('termlist: tensor with tied marginals of different kinds')
         try:
             tl = gen_terms.build_termlist(specs)
+            tl_ref = tl          # the Coq terms are always written from the constructor-built list (the lam values as specified)
+            if i % 3 == 1:
+                # the same lam values handed down through the term list's plural setter (what gam.lam = ... / gridsearch do): every lam must
+                # still end up on its own penalty (terms with several penalties and tensor terms receive several values at once)
+                import copy as _copy
+                ph = _copy.deepcopy(specs)
+                nested, c = [], 0
+                for sp_ in ph:
+                    if sp_['kind'] == 'te':
+                        nested.append([[float(v) for v in m_['lam']] for m_ in sp_['margins']])
+                        for m_ in sp_['margins']:
+                            m_['lam'] = [float(2 + (c := c + 1)) for _ in m_['lam']]
+                    elif sp_['kind'] != 'intercept':
+                        nested.append([float(v) for v in sp_['lam']])
+                        sp_['lam'] = [float(2 + (c := c + 1)) for _ in sp_['lam']]
+                try:
+                    tl2 = gen_terms.build_termlist(ph)
+                    tl2.lam = nested
+                    tl = tl2
+                    res.count('lam handed down through the term list setter')
+                except ValueError as e_:
+                    if 'inhomogeneous' not in str(e_):
+                        raise
+                    res.count('lam setter: ragged tensor settings (known finding S9g of C14), constructor route used')
             X = gen_terms.gen_X(rng, 12, nf, factor_feats, levels=levels)
             tl.compile(X)
+            if tl_ref is not tl:
+                tl_ref.compile(X.copy())
             if tl.n_coefs > 140:
                 continue
             M = tl.build_penalties()
@@ -187,7 +213,7 @@ def term_cases(res, rng, tier):
                                        expected='block-diagonal penalty matrix'))
             continue
         tol = '0' if dyadic else '(1#1000000000000)'
-        cases.append('(CTerms %s %s %s)' % (coq_list([term_coq(t) for t in tl._terms]), tol, mat_coq(M)))
+        cases.append('(CTerms %s %s %s)' % (coq_list([term_coq(t) for t in tl_ref._terms]), tol, mat_coq(M)))
         meta.append(dict(specs=specs, dyadic=dyadic, n_coefs=int(tl.n_coefs)))
         kinds = '+'.join(sorted({s['kind'] for s in specs}))
         res.count('termlist:' + kinds)
